@@ -186,7 +186,11 @@ def r2(model, rep):
             "self._xmin": ["min(self._x)", "np.min(self._x)", "self._x.min()"], "self._xmax": ["max(self._x)", "np.max(self._x)", "self._x.max()"],
             "self._ymin": ["min(self._y)", "np.min(self._y)", "self._y.min()"], "self._ymax": ["max(self._y)", "np.max(self._y)", "self._y.max()"],
             "self._intp": ["LinearNDInterpolator(list(zip(self._x, self._y)), self._fxy)"]}
+    cls_attrs = {x.attr for x in ast.walk(model.cls("_Interp2d")) if isinstance(x, ast.Attribute)}
     for k, alts in want.items():
+        if k not in st and k[5:] not in cls_attrs:
+            # the anchor is gone (the table's extent is kept some other way): nothing here says how
+            raise AnalysisError("_Interp2d no longer keeps %s: the way the table's extent is stored is not readable" % k)
         if st.get(k) not in alts:
             ok = False
             rep.violation("R2", "components._Interp2d.__init__", "%s:%d" % (rel, init.lineno), "%s = %s, expected %s" % (k, st.get(k), alts[0]), "interp2d init " + k)
